@@ -73,6 +73,16 @@ def cases(tier, seed):
     for a, b in itertools.permutations(SPELLINGS, 2):
         for s in (REP_SETS[1:5] if tier == "quick" else REP_SETS):
             out.append({"set": s, "tags": f"spell:{a}|{b}", "ids": "snake", "strategy": "operationId", "fmt": "json"})
+    # every operation SHAPE must be reachable too (parameters in every location, every body kind incl. media types without a
+    # schema, every response content kind): one document per shape
+    from . import c01
+
+    shapes = c01.op_cases("quick") + [ops.op("post", "/raw", [], {"kind": k, "required": True}, {"204": "none"}) for k in ("octet-noschema", "json-noschema", "multipart-noschema")]
+    for sh in shapes:  # one shape per document: a shape whose package does not import (C01's subject) must not hide the others
+        out.append({"shapes": [sh], "strategy": "operationId", "fmt": "json"})
+    # naming strategy `clean` with FastAPI-style ids on routes that look like reserved names / start with a digit / use camelCase
+    for strategy in ("clean", "operationId", "path"):
+        out.append({"routes": ["/config", "/models", "/2fa/verify", "/userProfiles", "/import", "/items/{item_id}/type"], "strategy": strategy, "fmt": "json"})
     if tier != "quick":
         for s in sets:
             for tp in ("multi", "case", "punct", "mixed-none"):
@@ -88,7 +98,33 @@ def cases(tier, seed):
     return uniq
 
 
+def fastapi_id(handler, path, method):
+    """FastAPI's own formula: f"{name}{path}" with non-word characters replaced by "_", then "_" + method"""
+    return re.sub(r"\W", "_", f"{handler}{path}") + "_" + method.lower()
+
+
 def build(case):
+    if "shapes" in case:
+        cs = [dict(c) for c in case["shapes"]]
+        doc, meta = ops.build_doc(cs)
+        out = []
+        for c, m in zip(cs, meta):
+            c2 = dict(c)
+            c2["path"] = m["path"]
+            c2["tags"] = [m["tag"]]
+            out.append(c2)
+        return doc, out
+    if "routes" in case:
+        cs = []
+        for i, r in enumerate(case["routes"]):
+            for m in ("get", "post"):
+                params = [ops.param(v, "path", True, "string") for v in re.findall(r"\{([^}]+)\}", r)]
+                c = ops.op(m, r, params, {"kind": "json-ref", "required": True} if m == "post" else None, {"200": "json-model"}, ["things"],
+                           fastapi_id(f"handler{i}{m}", r, m))
+                c["handler"] = f"handler{i}{m}"
+                cs.append(c)
+        doc, meta = ops.build_doc(cs, auto_tag=False, auto_id=False, prefix=False)
+        return doc, cs
     cs = []
     for i, ci in enumerate(case["set"]):
         path, method = COMBOS[ci]
@@ -107,15 +143,21 @@ def norm_tag(t):
 
 def run_case(case):
     doc, cs = build(case)
-    label = f"ops={[COMBOS[i][1].upper() + ' ' + COMBOS[i][0] for i in case['set']]}|tags={case['tags']}|ids={case['ids']}|{case['strategy']}|{case['fmt']}"
+    if "shapes" in case:
+        label = "shapes=" + " ;; ".join(ops.describe(c) for c in case["shapes"])
+    elif "routes" in case:
+        label = f"routes={case['routes']}|{case['strategy']}"
+    else:
+        label = f"ops={[COMBOS[i][1].upper() + ' ' + COMBOS[i][0] for i in case['set']]}|tags={case['tags']}|ids={case['ids']}|{case['strategy']}|{case['fmt']}"
+    case = dict({"tags": "-", "ids": "-", "set": []}, **case)
     found = []
     seen = set()
 
-    def add(clause, disc, detail):
+    def add(clause, disc, detail, key=None):
         sig = f"C07|{clause}|{disc}"
-        if sig not in seen:
-            seen.add(sig)
-            found.append({"sig": sig, "key": label, "msg": f"{detail} in {label}"})
+        if (sig, key) not in seen:
+            seen.add((sig, key))
+            found.append({"sig": sig, "key": key or label, "msg": f"{detail} in {label}"})
 
     gdoc = c19.int_keys(doc) if case["fmt"] == "yaml-intkeys" else doc
     fmt = "yaml" if case["fmt"] == "yaml-intkeys" else case["fmt"]
@@ -129,6 +171,8 @@ def run_case(case):
         raise HarnessError("reach driver crashed: " + res["_crash"] + res.get("_tb", ""))
     for e in res["errors"]:
         if e["stage"] == "make_client":
+            if "shapes" in case:
+                return {"findings": [], "nontrivial": label, "outcome": "unimportable-shape"}  # C01 owns importability of single shapes
             add("client-unusable", e["error"], e["raw"])
     if any(e["stage"] == "make_client" for e in res["errors"]):
         return {"findings": found, "nontrivial": label, "outcome": "client-unusable"}
@@ -195,13 +239,19 @@ def run_case(case):
         for i, c in enumerate(cs):
             if hits[i] and names_by_op[i] != [c["op_id"]]:
                 add("naming", "operationId strategy does not use a unique snake_case operationId verbatim", f"{c['op_id']} -> {names_by_op[i]}")
+    if "routes" in case and case["strategy"] == "clean":
+        for i, c in enumerate(cs):
+            if hits[i] and names_by_op[i] != [c["handler"]]:
+                add("naming", "clean strategy does not strip the FastAPI suffix", f"{c['op_id']} -> {names_by_op[i]} (handler {c['handler']})",
+                    key=f"route {c['method'].upper()} {c['path']}|clean")
     if case["strategy"] == "clean" and case["ids"] == "fastapi":
         for i, c in enumerate(cs):
             if hits[i] and names_by_op[i] != [f"fn{i}"]:
                 add("naming", "clean strategy does not strip the FastAPI suffix", f"{c['op_id']} -> {names_by_op[i]}")
     sample = {"case": label, "clients": {p: sorted(i["methods"]) for p, i in res["clients"].items()}}
     return {"findings": found, "nontrivial": label, "outcome": "reach:" + ("finding" if found else "ok"), "sample": sample,
-            "names": {"|".join(f"{COMBOS[ci][1]} {COMBOS[ci][0]}" for ci in case["set"]) + "|" + case["tags"]: names_by_op} if case["strategy"] == "path" else None}
+            "names": {"|".join(f"{COMBOS[ci][1]} {COMBOS[ci][0]}" for ci in case["set"]) + "|" + case["tags"]: names_by_op}
+            if case["strategy"] == "path" and case["set"] else None}
 
 
 def finalize(cases, results, tier, seed):
